@@ -710,3 +710,37 @@ Lemma src_req_in_range_spec T v mn mx :
 Proof.
   intros H1 H2 H3. destruct T; unfold src_req_in_range, src_req_in_range_U8, src_req_in_range_U16, src_req_in_range_U32, src_req_in_range_U64, src_req_in_range_I8, src_req_in_range_I16, src_req_in_range_I32, src_req_in_range_I64; run_src; cmps.
 Qed.
+
+(* ---- C15: equality of sets (friend operator== / operator!= of bitset_base<T>) ---- *)
+Definition src_set_eq (T : ity) : list effect :=
+  match T with U8 => src_set_eq_U8 | U16 => src_set_eq_U16 | U32 => src_set_eq_U32 | _ => src_set_eq_U64 end.
+Definition src_set_ne (T : ity) : list effect :=
+  match T with U8 => src_set_ne_U8 | U16 => src_set_ne_U16 | U32 => src_set_ne_U32 | _ => src_set_ne_U64 end.
+
+Lemma src_set_eq_is_value_eq T a b :
+  is_set_type T = true -> in_range T a = true -> in_range T b = true ->
+  effs_eval [("lhs.bits", a); ("rhs.bits", b)] (src_set_eq T) = Some [zb (a =? b)%Z] /\
+  effs_eval [("lhs.bits", a); ("rhs.bits", b)] (src_set_ne T) = Some [zb (negb (a =? b)%Z)].
+Proof.
+  intros HT Ha Hb.
+  destruct T; try discriminate HT; unfold src_set_eq, src_set_ne, src_set_eq_U8, src_set_eq_U16, src_set_eq_U32,
+    src_set_eq_U64, src_set_ne_U8, src_set_ne_U16, src_set_ne_U32, src_set_ne_U64; split; run_src; reflexivity.
+Qed.
+
+(* equality is consistent with the choices: two sets compare equal exactly when every choice getter agrees *)
+Theorem src_set_equality_consistent T a b :
+  is_set_type T = true -> in_range T a = true -> in_range T b = true ->
+  (effs_eval [("lhs.bits", a); ("rhs.bits", b)] (src_set_eq T) = Some [1] <->
+   forall n, 0 <= n < CInt.bits T ->
+     effs_eval [("bits", a); ("n", n)] (src_get_bit T) = effs_eval [("bits", b); ("n", n)] (src_get_bit T)).
+Proof.
+  intros HT Ha Hb. destruct (src_set_eq_is_value_eq T a b HT Ha Hb) as [He _]. rewrite He. split.
+  - destruct (Z.eqb_spec a b) as [->|Hne]; [intros _ n _; reflexivity|intros H; discriminate H].
+  - intros H. assert (a = b) as ->.
+    { apply (raw_value_determined_by_bits T a b HT Ha Hb). intros n Hn.
+      pose proof (H n Hn) as Hg.
+      rewrite !src_get_bit_is_testbit in Hg by assumption.
+      rewrite !(get_bit_is_testbit T _ n HT Hn) by assumption.
+      destruct (Z.testbit a n), (Z.testbit b n); cbn in Hg; try reflexivity; discriminate Hg. }
+    rewrite Z.eqb_refl. reflexivity.
+Qed.
